@@ -939,6 +939,153 @@ Proof.
   rewrite app_length in G1. simpl in G1. lia.
 Qed.
 
+(* ================================================================== remove_substituent does not fail half-way
+   (a1 designated by object, a1 <> a2): once the checks at its beginning have passed, nothing raises *)
+Record bfs_inv (s : st) (x1 : positive) (vis out : list positive) : Prop := {
+  bi_sub : forall y, In y out -> In y vis;
+  bi_nd : NoDup out;
+  bi_x1 : In x1 vis;
+  bi_mem : forall y, In y out -> In y (ids s) }.
+
+Lemma neighbours_members s x y : Inv s -> In y (neighbours s x) -> In y (ids s).
+Proof.
+  intros [_ [_ [_ [_ [_ H6]]]]] H. unfold neighbours in H. apply in_map_iff in H.
+  destruct H as [b [E Hb]]. apply filter_In in Hb. destruct Hb as [Hb _].
+  destruct (H6 b Hb) as [_ [_ [A B]]]. destruct (Pos.eqb (b_a1 b) x); subst; assumption.
+Qed.
+
+Lemma bfs_visit_inv s x1 vis q out a :
+  In a (ids s) -> bfs_inv s x1 vis out ->
+  let '(vis', _, out') := bfs_visit (vis, q, out) a in bfs_inv s x1 vis' out'.
+Proof.
+  intros Ha [I1 I2 I3 I4]. unfold bfs_visit. destruct (mem a vis) eqn:E.
+  - constructor; assumption.
+  - assert (Hn : ~ In a vis) by (intro H; apply mem_In in H; congruence).
+    constructor.
+    + intros y [<-|Hy]; [left; reflexivity|right; apply I1; exact Hy].
+    + constructor; [intro H; apply Hn; apply I1; exact H|exact I2].
+    + right. exact I3.
+    + intros y [<-|Hy]; [exact Ha|apply I4; exact Hy].
+Qed.
+
+Lemma bfs_fold_inv s x1 : forall l vis q out,
+  (forall a, In a l -> In a (ids s)) -> bfs_inv s x1 vis out ->
+  let '(vis', _, out') := fold_left bfs_visit l (vis, q, out) in bfs_inv s x1 vis' out'.
+Proof.
+  induction l as [|a l IH]; intros vis q out Hl HI; simpl; [exact HI|].
+  pose proof (bfs_visit_inv s x1 vis q out a (Hl a (or_introl eq_refl)) HI) as H.
+  destruct (bfs_visit (vis, q, out) a) as [[v1 q1] o1]. apply IH; [|exact H].
+  intros b Hb. apply Hl. right. exact Hb.
+Qed.
+
+Lemma bfs_loop_inv s x1 : Inv s -> forall fuel vis q out res,
+  bfs_inv s x1 vis out -> bfs_loop fuel s vis q out = Some res ->
+  exists vis', bfs_inv s x1 vis' (rev res).
+Proof.
+  intros HInv. induction fuel as [|f IH]; intros vis q out res HI H; destruct q as [|x q']; simpl in H; try discriminate.
+  - inversion H; subst. rewrite rev_involutive. eauto.
+  - inversion H; subst. rewrite rev_involutive. eauto.
+  - pose proof (bfs_fold_inv s x1 (neighbours s x) vis q' out
+                  (fun a Ha => neighbours_members s x a HInv Ha) HI) as HF.
+    destruct (fold_left bfs_visit (neighbours s x) (vis, q', out)) as [[v1 q1] o1].
+    eapply IH; eauto.
+Qed.
+
+Lemma del_atom_obj_ok s y : Inv s -> In y (ids s) -> exists s', del_atom s (ByObj y) = Ok s'.
+Proof.
+  intros HI Hy. pose proof HI as [H1 [H2 [H3 _]]].
+  destruct (in_ids_find_idx s y Hy) as [i Hf].
+  destruct (find_idx_nth _ _ Hf) as [a [Hn [Hp Hfind]]]. apply id_is_true in Hp. subst y.
+  unfold del_atom. destruct (has_q s) eqn:Eq.
+  - unfold mol_del_atom. simpl get_atom_index. rewrite Hf.
+    unfold struct_del_atom. simpl get_atom. rewrite Hfind.
+    rewrite (@geom_del_obj s i a H3 H1 Hn). simpl bind.
+    destruct H2 as [H2 _].
+    assert (Hi : i < length (charges s)). { rewrite H2. apply nth_error_Some. congruence. }
+    simpl charges. rewrite (del_nth_rm _ Hi). eauto.
+  - unfold struct_del_atom. simpl get_atom. rewrite Hfind.
+    rewrite (@geom_del_obj s i a H3 H1 Hn). eauto.
+Qed.
+
+Lemma del_fold_ok : forall out s, Inv s -> NoDup out -> (forall y, In y out -> In y (ids s)) ->
+  exists s1, fold_left (fun r x => bind r (fun s' => del_atom s' (ByObj x))) out (Ok s) = Ok s1 /\ Inv s1 /\
+             (forall z, In z (ids s1) <-> In z (ids s) /\ ~ In z out).
+Proof.
+  induction out as [|y out IH]; intros s HI Hnd Hm; simpl.
+  - exists s. split; [reflexivity|]. split; [exact HI|]. intros z. tauto.
+  - destruct (del_atom_obj_ok s y HI (Hm y (or_introl eq_refl))) as [s0 H0]. rewrite H0.
+    pose proof (step_good s (DelAtom (ByObj y)) HI) as G. simpl in G. rewrite H0 in G. destruct G as [G1 _].
+    destruct (del_atom_exact s (ByObj y) s0 HI H0) as [a [Ha [_ [_ [Hids _]]]]].
+    simpl in Ha. apply find_some in Ha. destruct Ha as [_ Ha]. apply id_is_true in Ha. subst y.
+    inversion Hnd; subst.
+    destruct (IH s0 G1 H3) as [s1 [F1 [F2 F3]]].
+    { intros z Hz. apply Hids. split; [apply Hm; right; exact Hz|]. intro E. subst. contradiction. }
+    exists s1. split; [exact F1|]. split; [exact F2|].
+    intros z. rewrite F3, Hids. simpl. split.
+    + intros [[A B] C]. split; [exact A|]. intros [E|E]; [congruence|contradiction].
+    + intros [A B]. split; [split; [exact A|]|]; intro E; apply B; [left; congruence|right; exact E].
+Qed.
+
+Theorem rs_err_unchanged s x1 s2 l s' : Inv s ->
+  (forall a2, get_atom s s2 = Some a2 -> a_id a2 <> x1) ->
+  remove_substituent s (ByObj x1) s2 l = Err s' -> s' = s.
+Proof.
+  intros HI Hne H. unfold remove_substituent, remove_substituent_body in H.
+  destruct (get_atom_index s s2) as [i2|]; [|congruence].
+  destruct (nth_error (coords s) i2) as [c2|]; [|congruence].
+  destruct (get_atom s (ByObj x1)) as [a1|] eqn:E1; [|congruence].
+  destruct (get_atom s s2) as [a2|] eqn:E2; [|congruence].
+  destruct (mem (a_id a2) (neighbours s (a_id a1))) eqn:Em; [|congruence].
+  destruct (bfs_loop (bfs_fuel s) s [a_id a2; a_id a1] [a_id a2] [a_id a2]) as [out|] eqn:Eb; [|discriminate].
+  exfalso.
+  simpl in E1. apply find_some in E1. destruct E1 as [Hin1 E1]. apply id_is_true in E1.
+  assert (Hx1 : In x1 (ids s)) by (rewrite <- E1; apply in_map; exact Hin1).
+  destruct (get_atom_in s s2 E2) as [j Hj].
+  assert (Ha2 : In (a_id a2) (ids s)) by (apply in_map; eapply nth_error_In; eauto).
+  specialize (Hne a2 eq_refl).
+  assert (HI0 : bfs_inv s x1 [a_id a2; a_id a1] [a_id a2]).
+  { constructor.
+    - intros y [<-|[]]. left. reflexivity.
+    - constructor; [intros []|constructor].
+    - right. left. exact E1.
+    - intros y [<-|[]]. exact Ha2. }
+  destruct (bfs_loop_inv s x1 HI _ _ _ _ _ HI0 Eb) as [vis' [B1 B2 B3 B4]].
+  assert (Hout_nd : NoDup out) by (rewrite <- (rev_involutive out); apply NoDup_rev; exact B2).
+  assert (Hout_mem : forall y, In y out -> In y (ids s)) by (intros y Hy; apply B4; apply in_rev in Hy; exact Hy).
+  (* x1 was in `visited` from the start and is never yielded afterwards; the first yield is a2 <> x1 *)
+  assert (Hx1out : ~ In x1 out).
+  { clear - Eb Hne E1 HI. intro Hin.
+    assert (G : forall fuel vis q o res, In x1 vis -> ~ In x1 o -> bfs_loop fuel s vis q o = Some res -> ~ In x1 res).
+    { induction fuel as [|f IH]; intros vis q o res Hv Ho Hr; destruct q as [|x q']; simpl in Hr; try discriminate.
+      - inversion Hr; subst. intro H. apply in_rev in H. contradiction.
+      - inversion Hr; subst. intro H. apply in_rev in H. contradiction.
+      - assert (F : forall l v q0 o0, In x1 v -> ~ In x1 o0 ->
+                  let '(v', _, o') := fold_left bfs_visit l (v, q0, o0) in In x1 v' /\ ~ In x1 o').
+        { induction l as [|a l IHl]; intros v q0 o0 A B; simpl; [auto|].
+          unfold bfs_visit at 2. destruct (mem a v) eqn:Ea; [apply IHl; assumption|].
+          apply IHl; [right; exact A|]. intros [E|E]; [|contradiction]. subst.
+          apply mem_In in A. congruence. }
+        specialize (F (neighbours s x) vis q' o Hv Ho).
+        destruct (fold_left bfs_visit (neighbours s x) (vis, q', o)) as [[v1 q1] o1]. destruct F as [F1 F2].
+        eapply IH; eauto. }
+    eapply (G _ _ _ _ _ _ _ Eb); [|exact Hin]. Unshelve.
+    - right. left. exact E1.
+    - intros [E|[]]. congruence. }
+  destruct (del_fold_ok out s HI Hout_nd Hout_mem) as [s1 [F1 [F2 F3]]].
+  rewrite F1 in H. simpl bind in H.
+  rewrite add_atom_spec in H. simpl bind in H.
+  unfold conn_connect in H. simpl get_atom in H.
+  set (sa := added s1 el_Unknown l c2 0) in *.
+  assert (M1 : In x1 (ids sa)).
+  { unfold sa, added, ids. simpl. rewrite map_app. apply in_or_app. left. apply F3. split; assumption. }
+  assert (M2 : In (next_a s1) (ids sa)).
+  { unfold sa, added, ids. simpl. rewrite map_app. apply in_or_app. right. left. reflexivity. }
+  destruct (in_ids_find_idx sa _ M1) as [k1 K1]. destruct (find_idx_nth _ _ K1) as [b1 [_ [P1 Q1]]].
+  destruct (in_ids_find_idx sa _ M2) as [k2 K2]. destruct (find_idx_nth _ _ K2) as [b2 [_ [P2 Q2]]].
+  rewrite Q1, Q2 in H. apply id_is_true in P1. apply id_is_true in P2.
+  eapply append_bond_no_err. exact H.
+Qed.
+
 (* ================================================================== packaged statements used by Props/C05.v *)
 Theorem inv_step s o s' : Inv s -> (step s o = Ok s' \/ step s o = Err s') -> Inv s'.
 Proof. intros HI [H|H]; pose proof (step_good s o HI) as G; rewrite H in G; apply G. Qed.
